@@ -92,6 +92,25 @@ pub fn step(kind: &str, body: String) {
     emit(format!("{{\"ev\":\"{kind}\",{body}}}"));
 }
 
+/// A move has been made on the search board (the child at `ply` is entered next).
+pub fn down(mv: String, ply: u16) {
+    if !recording() {
+        return;
+    }
+    emit(format!("{{\"ev\":\"down\",\"mv\":\"{mv}\",\"ply\":{ply}}}"));
+}
+
+/// A child search has returned: `kind` of call, the caller's window and remaining depth at the
+/// call, and the child's value as the caller sees it (already negated).
+pub fn up(kind: &str, alpha: i16, beta: i16, depth: u8, score: i16, ply: u8) {
+    if !recording() {
+        return;
+    }
+    emit(format!(
+        "{{\"ev\":\"up\",\"kind\":\"{kind}\",\"alpha\":{alpha},\"beta\":{beta},\"depth\":{depth},\"score\":{score},\"ply\":{ply}}}"
+    ));
+}
+
 /// Installs an observer that is shown the session board after each UCI command.
 pub fn set_observer(f: BoardObserver) {
     *OBSERVER.lock().unwrap() = Some(f);
